@@ -19,13 +19,15 @@ RULE = ('cases = (lineage/forest with thresholds and report flags, genome placem
         'its float32 neighbours; random forests up to depth 8 / 60 taxa with ties for the minimum; end-to-end query() and gambit query '
         '(csv/json/archive) on synthetic databases with distances equal to thresholds; non-trivial = some taxon carries a threshold; '
         'distinct = full case by hash')
-ASSUMPTIONS = ['oracle vf/oracles/taxonomy.py', 'thresholds are float32-representable (comparison of a float32 distance with the stored double is then unambiguous)',
+ASSUMPTIONS = ['oracle vf/oracles/taxonomy.py', 'a single-precision distance is compared with the stored double-precision threshold as real numbers (0.2 is smaller than float32(0.2) = 0.200000003): that is the statement, and what NumPy 1.26 does for np.float32 <= float',
                'any genome at the minimum distance is accepted as "the closest match" here (the deterministic tie rule is C09)']
 REACH = ['gambit.classify:matching_taxon', 'gambit.classify:GenomeMatch.next_taxon', 'gambit.classify:classify', 'gambit.db.models:reportable_taxon',
          'gambit.query:get_result_item', 'gambit.query:query']
 
 THRS = [None, 0.25, 0.5, 0.75]
 f32 = lambda x: float(np.float32(x))
+F64_THRS = [0.1, 0.3, 0.6, 0.7, 0.9]       # doubles that are not single-precision values: float32(t) is above t for 0.1 0.3 0.6 and below it for 0.7 0.9
+F64_GRID = sorted({f32(t) for t in F64_THRS} | {f32(np.nextafter(np.float32(t), np.float32(s))) for t in F64_THRS for s in (0, 2)} | {0.0, 0.5, 1.0})
 GRID = sorted({0.0, 1.0, 0.1, 0.6, 0.9} | {f32(t) for t in (0.25, 0.5, 0.75)} |
               {f32(np.nextafter(np.float32(t), np.float32(s))) for t in (0.25, 0.5, 0.75) for s in (0, 2)})
 
@@ -39,6 +41,8 @@ def shards(tier, seed):
 			out.append(dict(name=f'lineage-L{L}-{p}', kind='lineage', L=L, part=p, nparts=nparts))
 	for L in (1, 2, 3, 4):
 		out.append(dict(name=f'lineage-edge-L{L}', kind='lineage', L=L, part=0, nparts=1, thrs=[None, 0.0, 0.25, 1.0, 1.5]))
+	for L in (1, 2, 3):
+		out.append(dict(name=f'lineage-f64-L{L}', kind='lineage', L=L, part=0, nparts=1, thrs=[None] + F64_THRS, grid=F64_GRID))
 	n = 6 if tier == 'quick' else 32
 	for i in range(n):
 		out.append(dict(name=f'forest-{i}', kind='forest', sub=i, n=400 if tier == 'quick' else 3000))
@@ -108,7 +112,7 @@ def run_lineage(sh, ctx):
 			genomes = orm.make_genomes(otaxa, [0])
 			prev = 'start'
 			w0 = dict(thresholds_leaf_to_root=list(thrs), report_flags=list(reps))
-			for d in (GRID if 'thrs' not in sh else [0.0, f32(np.nextafter(np.float32(0), np.float32(1))), 0.1, 0.25, 0.9, f32(np.nextafter(np.float32(1), np.float32(0))), 1.0]):
+			for d in (sh['grid'] if 'grid' in sh else GRID if 'thrs' not in sh else [0.0, f32(np.nextafter(np.float32(0), np.float32(1))), 0.1, 0.25, 0.9, f32(np.nextafter(np.float32(1), np.float32(0))), 1.0]):
 				dists = np.array([d], dtype='f4')
 				res = gc.classify(genomes, dists)
 				rep = reportable_taxon(res.predicted_taxon)
@@ -123,6 +127,8 @@ def run_lineage(sh, ctx):
 				prev = gp
 				if d in (0.25, 0.5, 0.75) and d in thrs:
 					ctx.count('distance_exactly_on_threshold')
+				if 'grid' in sh and any(t is not None and t != d and f32(t) == d for t in thrs):
+					ctx.count('distance_is_the_single_precision_value_of_a_threshold')
 			if thrs[0] is None:
 				ctx.count('lineages_with_thresholdless_leaf')
 			ctx.count('lineages')
@@ -137,10 +143,10 @@ def gen_forest(rng):
 			parent = None
 		else:
 			parent = model[i - 1] if deep and rng.random() < 0.8 else model[rng.randrange(i)]
-		model.append(TX.T(i, parent, rng.choice(THRS + [f32(rng.random())]), rng.random() < 0.75))
+		model.append(TX.T(i, parent, rng.choice(THRS + F64_THRS + [f32(rng.random())]), rng.random() < 0.75))
 	ng = rng.randint(1, 20)
 	gt = [rng.randrange(nt) for _ in range(ng)]
-	base = [rng.choice(GRID + [f32(rng.random()) for _ in range(3)]) for _ in range(ng)]
+	base = [rng.choice(GRID + F64_GRID + [f32(rng.random()) for _ in range(3)]) for _ in range(ng)]
 	if ng > 1 and rng.random() < 0.5:
 		m = min(base)
 		for _ in range(rng.randint(1, 3)):
@@ -259,7 +265,7 @@ def run_shard(sh, ctx):
 
 def finalize(merged, tier, seed, inconclusive):
 	c = merged['counters']
-	for n in ['lineages', 'lineages_with_thresholdless_leaf', 'distance_exactly_on_threshold', 'tied_minimum', 'e2e_api_queries', 'e2e_cli_commands', 'e2e_distance_exactly_on_a_threshold']:
+	for n in ['lineages', 'lineages_with_thresholdless_leaf', 'distance_exactly_on_threshold', 'tied_minimum', 'e2e_api_queries', 'e2e_cli_commands', 'e2e_distance_exactly_on_a_threshold', 'distance_is_the_single_precision_value_of_a_threshold']:
 		if c.get(n, 0) == 0:
 			inconclusive.append(f'class never observed: {n}')
 	return dict(exhaustive=True, max_depth=max(merged['sets'].get('depths', {0})),
